@@ -594,6 +594,16 @@ def history_menus():
                 B_ = [w1[4] + sep + w2[6], w1[5] + sep + w2[7]]
                 C_ = [w1[4] + sep + w2[2], w1[4] + sep + w2[8]]
                 yield ('%s%s%s' % (c1, sep, c2), [A_, B_, C_])
+    # the same three kinds of set, but each with a different separator: the
+    # sets of one menu then contain different subsets of the extra letters
+    for seps in (('-', '.', '_'), (':', '-', '_')):
+        for c1 in 'lUd':
+            for c2 in 'lUd':
+                w1, w2 = words[c1], words[c2]
+                A_ = [w1[0] + seps[0] + w2[2], w1[1] + seps[0] + w2[3]]
+                B_ = [w1[4] + seps[1] + w2[6], w1[5] + seps[1] + w2[7]]
+                C_ = [w1[4] + seps[2] + w2[2], w1[4] + seps[2] + w2[8]]
+                yield ('%s%s%s' % (c1, ''.join(seps), c2), [A_, B_, C_])
 
 
 def _history_points():
